@@ -126,4 +126,23 @@ theorem toBytesE_nat (n k : Nat) (h : n < 256 ^ k) :
   rw [if_neg h1, if_neg h2]
   simp
 
+theorem beNat_snoc (l : Bytes) (x : UInt8) : Bytes.beNat (l ++ [x]) = Bytes.beNat l * 256 + x.toNat := by
+  simp [Bytes.beNat, List.foldl_append]
+
+/-- `int.from_bytes(n.to_bytes(k, "big"), "big") == n` -/
+theorem beNat_ofNatBE (k n : Nat) (h : n < 256 ^ k) : Bytes.beNat (Bytes.ofNatBE k n) = n := by
+  induction k generalizing n with
+  | zero =>
+    have : n = 0 := by simpa using h
+    subst this; rfl
+  | succ k ih =>
+    have hd : n / 256 < 256 ^ k := by
+      rw [Nat.pow_succ] at h
+      exact Nat.div_lt_of_lt_mul (by rw [Nat.mul_comm]; exact h)
+    have hx : (UInt8.ofNat (n % 256)).toNat = n % 256 := by
+      simp only [UInt8.toNat_ofNat']
+      omega
+    rw [Bytes.ofNatBE, beNat_snoc, ih _ hd, hx]
+    omega
+
 end TLX.PyRt
